@@ -398,6 +398,52 @@ pub fn c12(a: &Args) {
             run_doc(&mut out, &buf, "multi", table.user_font(), doc, &mut stats);
         }
     }
+    // (4) pages: neighbouring cells with the SAME colours and flags on DIFFERENT font pages, for every pair of glyph shape
+    //     classes and for the codes whose class differs between the two fonts (whatever the optimiser remembers about the
+    //     previous cell must not leak across a font-page change)
+    let n_pairs = if thorough { 60 } else { 10 };
+    for t in 0..n_pairs {
+        let mut r = rng(seed, 123_000 + t as u64);
+        let fa = &fonts[if t % 2 == 0 { 0 } else { r.gen_range(0..fonts.len()) }];
+        let fb = &fonts[r.gen_range(0..fonts.len())];
+        let slot_b = *[1usize, 2, 5, 17, 27, 42].choose(&mut r).unwrap();
+        let table = Table { slots: vec![(0, fa), (slot_b, fb)] };
+        emit_table(&mut out, &table, "pages");
+        let classes = |fi: &FontInfo| -> Vec<Vec<u32>> { vec![fi.blanks.clone(), fi.solids.clone(), fi.near_solid.clone(), fi.near_blank.clone(), fi.mixed.clone()] };
+        let (ca, cb) = (classes(fa), classes(fb));
+        let mut cells: Vec<AttributedChar> = Vec::new();
+        let mut pair = |cells: &mut Vec<AttributedChar>, r: &mut StdRng, ga: u32, gb: u32, first_b: bool| {
+            let at = rnd_attr(r, 0);
+            let (mut a0, mut a1) = (at, at);
+            a0.set_font_page(if first_b { slot_b } else { 0 });
+            a1.set_font_page(if first_b { 0 } else { slot_b });
+            cells.push(AttributedChar::new(ch(if first_b { gb } else { ga }), a0));
+            cells.push(AttributedChar::new(ch(if first_b { ga } else { gb }), a1));
+        };
+        for pa in &ca {
+            for pb in &cb {
+                for rep in 0..3 {
+                    let (Some(ga), Some(gb)) = (pick(&mut r, pa), pick(&mut r, pb)) else { continue };
+                    pair(&mut cells, &mut r, ga, gb, rep % 2 == 1);
+                }
+            }
+        }
+        // the same code on both pages where its class differs
+        let class_of = |cs: &Vec<Vec<u32>>, g: u32| cs.iter().position(|p| p.contains(&g));
+        for g in 0..256u32 {
+            if class_of(&ca, g) != class_of(&cb, g) {
+                pair(&mut cells, &mut r, g, g, g % 2 == 1);
+            }
+        }
+        let w = 40;
+        for chunk in cells.chunks((w * 12) as usize) {
+            let h = (chunk.len() as i32 + w - 1) / w;
+            let mut buf = new_buffer((w, h), &table);
+            buf.layers.push(full_layer((w, h), chunk));
+            doc += 1;
+            run_doc(&mut out, &buf, "pages", table.user_font(), doc, &mut stats);
+        }
+    }
     out.flush();
     eprintln!("c12: {doc} documents, {} events, {} cells, {} rewritten by the optimiser", out.n, stats.cells, stats.changed);
 }
